@@ -84,7 +84,7 @@ func (e *Env) pureQueries(rule string) {
 			c.Undecided(rule, cons, pos, u)
 		}
 		obj, _ := fn.Object().(*types.Func)
-		unexported := obj != nil && !obj.Exported()
+		unexported := obj != nil && load.IsHelper(obj)
 		for _, w := range fe.Writes {
 			// an unexported function writing through one of its parameters (a helper appending to the builder it is
 			// handed) acts on behalf of its callers: the write is attributed to them - to a local of theirs, or to
@@ -180,7 +180,7 @@ var impureStd = map[string]string{
 // determinism: E4.
 func (e *Env) determinism(rule string, concurrency bool) {
 	c := e.C
-	for _, rel := range load.LibPkgs {
+	for _, rel := range e.P.LibRels() {
 		pk := e.P.Lib(rel)
 		var imps []string
 		for _, imp := range pk.Types.Imports() {
@@ -264,7 +264,7 @@ func (e *Env) determinism(rule string, concurrency bool) {
 // packageVars: every package-level variable of the library packages is a table, a sentinel, or reported.
 func (e *Env) packageVars(rule string) {
 	c := e.C
-	for _, rel := range load.LibPkgs {
+	for _, rel := range e.P.LibRels() {
 		pk := e.P.Lib(rel)
 		sc := pk.Types.Scope()
 		for _, n := range sc.Names() {
@@ -419,6 +419,9 @@ func (e *Env) templateRules() {
 		c.Fail(rule, "v3/report", "", "the template helpers (callee of ExportWithString taking (data, text); callee of ExportWith taking the reader) were not found")
 		return
 	}
+	// which of executeTemplate's two operands is the text: (data, text) for a function, (text) data for a method
+	// of a string type that holds the text
+	textIdx, dataIdx := e.execOperands(exec)
 	leavesOf := func(fn *types.Func) []*ir.Leaf {
 		ls, err := ir.Leaves(e.P.SSAFunc(fn), ir.LeafOptions{Forward: true, Effects: true, Inline: e.inlineHelpers(exec, gts)})
 		if err != nil {
@@ -459,10 +462,18 @@ func (e *Env) templateRules() {
 				}
 			}
 			if parse == nil {
+				// a defensive refusal of a nil data value before anything is done: no output, the nil-report
+				// sentinel (the interface the exported callers pass holds their non-nil receiver, so the path is
+				// dead there; it can refuse nothing they accept)
+				dataNil := ir.Bin("==", ir.Param(dataIdx), nilOf(exec.Type().(*types.Signature).Params().At(0).Type()))
+				if len(lf.Guards) == 1 && lf.Guards[0].Key() == dataNil.Key() && len(lf.Ret) == 2 && isNilConst(lf.Ret[0]) && wrapOf(lf.Ret[1], spec.Sentinels["nil-report"]) && sigDataIsInterface(exec, dataIdx) {
+					c.Ok(rule, cons+" (nil data)", e.P.Pos(lf.Pos), "(nil, errs.Wrap(ErrNullPointer)) before any work")
+					continue
+				}
 				c.Fail(rule, cons, e.P.Pos(lf.Pos), "the template text is not parsed on this path")
 				continue
 			}
-			okParse := len(parse.Args) == 2 && isCallOf(parse.Args[0], "text/template.New") && parse.Args[1].Op == ir.OParam && parse.Args[1].N == 1
+			okParse := len(parse.Args) == 2 && isCallOf(parse.Args[0], "text/template.New") && parse.Args[1].Op == ir.OParam && parse.Args[1].N == textIdx
 			if !okParse {
 				c.Fail(rule, cons, e.P.Pos(parse.Pos), "Parse is not applied to a fresh template.New(...) and the unmodified template text: "+clip(parse.Pretty()))
 				continue
@@ -477,7 +488,7 @@ func (e *Env) templateRules() {
 				ok := execute != nil && hasGuard(lf, ir.NotCond(perr))
 				if ok {
 					// Execute(template from Parse, buf, data)
-					ok = len(execute.Args) == 3 && execute.Args[0].Key() == (&ir.Term{Op: ir.OExtract, N: 0, Args: []*ir.Term{parse}}).Key() && execute.Args[2].Op == ir.OParam && execute.Args[2].N == 0
+					ok = len(execute.Args) == 3 && execute.Args[0].Key() == (&ir.Term{Op: ir.OExtract, N: 0, Args: []*ir.Term{parse}}).Key() && execute.Args[2].Op == ir.OParam && execute.Args[2].N == dataIdx
 					ok = ok && hasGuard(lf, ir.Bin("==", execute, nilOf(errorType)))
 					// the reader returned is the buffer written by Execute, a local allocation
 					ok = ok && lf.Ret[0].Key() == execute.Args[1].Key() && lf.Ret[0].Op == ir.OAddr && lf.Ret[0].Args[0].Op == ir.OAlloc
@@ -557,7 +568,7 @@ func (e *Env) templateRules() {
 				c.Check(ok, rule, cons+" (nil report)", e.P.Pos(lf.Pos), "(nil, errs.Wrap(ErrNullPointer))", "a nil report is not reported as (nil, errs.Wrap(ErrNullPointer))")
 				continue
 			}
-			call := ir.Call(exec, ir.Param(0), ir.Param(1))
+			call := e.execCall(exec, ir.Param(0), ir.Param(1))
 			ok := hasGuard(lf, ir.NotCond(recvNil)) && lf.Ret[0].Op == ir.OExtract && lf.Ret[0].N == 0 && lf.Ret[0].Args[0].Key() == call.Key() && lf.Ret[1].Op == ir.OExtract && lf.Ret[1].N == 1 && lf.Ret[1].Args[0].Key() == call.Key()
 			c.Check(ok, rule, cons, e.P.Pos(lf.Pos), "executeTemplate(receiver, unmodified text) after the nil-report guard", "does not return executeTemplate(receiver, text) on the unmodified text under a nil-report guard: "+clip(lf.String()))
 		}
@@ -610,6 +621,44 @@ func (e *Env) templateRules() {
 	}
 }
 
+// sigDataIsInterface: the data operand of executeTemplate is an interface value.
+func sigDataIsInterface(exec *types.Func, dataIdx int) bool {
+	sig := exec.Type().(*types.Signature)
+	var ts []types.Type
+	if sig.Recv() != nil {
+		ts = append(ts, sig.Recv().Type())
+	}
+	for i := 0; i < sig.Params().Len(); i++ {
+		ts = append(ts, sig.Params().At(i).Type())
+	}
+	return dataIdx < len(ts) && types.IsInterface(ts[dataIdx])
+}
+
+// execOperands: the positions (receiver first) of the template text and of the data among executeTemplate's operands.
+func (e *Env) execOperands(exec *types.Func) (textIdx, dataIdx int) {
+	sig := exec.Type().(*types.Signature)
+	var ts []types.Type
+	if sig.Recv() != nil {
+		ts = append(ts, sig.Recv().Type())
+	}
+	for i := 0; i < sig.Params().Len(); i++ {
+		ts = append(ts, sig.Params().At(i).Type())
+	}
+	textIdx, dataIdx = 1, 0
+	if len(ts) == 2 && isString(ts[0]) && !isString(ts[1]) {
+		textIdx, dataIdx = 0, 1
+	}
+	return
+}
+
+// execCall: executeTemplate applied to the data and the text, whatever the order of its operands.
+func (e *Env) execCall(exec *types.Func, data, text *ir.Term) *ir.Term {
+	textIdx, dataIdx := e.execOperands(exec)
+	args := make([]*ir.Term, 2)
+	args[textIdx], args[dataIdx] = text, data
+	return ir.Call(exec, args...)
+}
+
 // exportDelegates decides the other way of sharing the code of the two export methods: ExportWithString(text) is
 // ExportWith(strings.NewReader(text)) - a reader whose full content is text (trusted, like io.Copy) - and
 // ExportWith does the work itself: the reader's failure passed on, a nil report refused with ErrNullPointer,
@@ -637,7 +686,7 @@ func (e *Env) exportDelegates(rule string, ews, ew, exec, gts *types.Func, recvN
 	gerr := &ir.Term{Op: ir.OExtract, N: 1, Args: []*ir.Term{gcall}}
 	gstr := &ir.Term{Op: ir.OExtract, N: 0, Args: []*ir.Term{gcall}}
 	readOK := ir.Bin("==", gerr, nilOf(errorType))
-	ecall := ir.Call(exec, ir.Param(0), gstr)
+	ecall := e.execCall(exec, ir.Param(0), gstr)
 	for _, lf := range leavesOf(ew) {
 		cons := e.pathName(fname(ew), lf)
 		if len(lf.Ret) != 2 {
@@ -669,7 +718,64 @@ func (e *Env) reportHelpers() (exec, read *types.Func) {
 	if pk == nil {
 		return nil, nil
 	}
-	find := func(method string, want func(sig *types.Signature) bool) *types.Func {
+	// calls: sf (or the generic function it is an instance of) calls a function of the given package directly
+	calls := func(sf *ssa.Function, pkgPath string, names ...string) bool {
+		for _, f := range []*ssa.Function{sf, sf.Origin()} {
+			if f == nil {
+				continue
+			}
+			for _, b := range f.Blocks {
+				for _, in := range b.Instrs {
+					call, ok := in.(ssa.CallInstruction)
+					if !ok || call.Common().StaticCallee() == nil {
+						continue
+					}
+					co := call.Common().StaticCallee().Object()
+					if co == nil || co.Pkg() == nil || co.Pkg().Path() != pkgPath {
+						continue
+					}
+					if len(names) == 0 {
+						return true
+					}
+					for _, n := range names {
+						if co.Name() == n {
+							return true
+						}
+					}
+				}
+			}
+		}
+		return false
+	}
+	// reaches: a function of the given package is called by sf or by the package's own functions it calls
+	var reaches func(sf *ssa.Function, depth int, pkgPath string, names ...string) bool
+	reaches = func(sf *ssa.Function, depth int, pkgPath string, names ...string) bool {
+		if sf == nil || depth > 3 {
+			return false
+		}
+		if calls(sf, pkgPath, names...) {
+			return true
+		}
+		for _, f := range []*ssa.Function{sf, sf.Origin()} {
+			if f == nil {
+				continue
+			}
+			for _, b := range f.Blocks {
+				for _, in := range b.Instrs {
+					call, ok := in.(ssa.CallInstruction)
+					if !ok || call.Common().StaticCallee() == nil {
+						continue
+					}
+					cf := call.Common().StaticCallee()
+					if co := cf.Object(); co != nil && co.Pkg() == pk.Types && reaches(cf, depth+1, pkgPath, names...) {
+						return true
+					}
+				}
+			}
+		}
+		return false
+	}
+	find := func(method string, want func(sig *types.Signature, sf *ssa.Function) bool) *types.Func {
 		var found *types.Func
 		for _, tn := range []string{"BaseReport", "TemporalReport", "EnvironmentalReport"} {
 			T, _ := pk.Types.Scope().Lookup(tn).(*types.TypeName)
@@ -681,12 +787,14 @@ func (e *Env) reportHelpers() (exec, read *types.Func) {
 				return nil
 			}
 			// the helper is called by the method itself or through unexported helpers of the package (a shared
-			// exportWith(rep, isNil, r) in front of it): search the package-internal call tree, nearest first
+			// exportWith(rep, isNil, r) in front of it, a parse-and-execute step behind it): search the
+			// package-internal call tree; of the functions that fit, the one nearest to the work is the helper
 			var here *types.Func
 			seen := map[*ssa.Function]bool{}
 			level := []*ssa.Function{e.P.SSAFunc(m)}
-			for depth := 0; depth < 4 && here == nil && len(level) > 0; depth++ {
+			for depth := 0; depth < 5 && len(level) > 0; depth++ {
 				var next []*ssa.Function
+				var fit *types.Func
 				for _, sf := range level {
 					if sf == nil || seen[sf] {
 						continue
@@ -703,20 +811,35 @@ func (e *Env) reportHelpers() (exec, read *types.Func) {
 							if callee == nil || callee.Pkg() != pk.Types {
 								continue
 							}
-							if callee.Type().(*types.Signature).Recv() != nil {
+							if rv := callee.Type().(*types.Signature).Recv(); rv != nil {
 								// ExportWithString written as ExportWith(strings.NewReader(text)) of the same report
 								if callee == load.MethodOf(T.Type(), "ExportWith") && method == "ExportWithString" {
 									next = append(next, cf)
+									continue
 								}
-								continue
+								// a method of an unexported type of the package (a string type holding the text) is a helper
+								rt := rv.Type()
+								if pt, ok := rt.(*types.Pointer); ok {
+									rt = pt.Elem()
+								}
+								if named, ok := rt.(*types.Named); !ok || named.Obj().Exported() {
+									continue
+								}
 							}
-							if want(callee.Type().(*types.Signature)) {
-								here = callee
-							} else if !callee.Exported() {
+							if want(callee.Type().(*types.Signature), cf) {
+								if fit != nil && fit != callee {
+									return nil
+								}
+								fit = callee
+							}
+							if !callee.Exported() || callee.Type().(*types.Signature).Recv() != nil {
 								next = append(next, cf)
 							}
 						}
 					}
+				}
+				if fit != nil {
+					here = fit // a deeper level overrides a shallower one
 				}
 				level = next
 			}
@@ -727,11 +850,19 @@ func (e *Env) reportHelpers() (exec, read *types.Func) {
 		}
 		return found
 	}
-	exec = find("ExportWithString", func(sig *types.Signature) bool {
-		return sig.Params().Len() == 2 && sig.Results().Len() == 2 && isString(sig.Params().At(1).Type())
+	// (a shared helper in front of them may have the same shape: the helper looked for is the one that does the work)
+	exec = find("ExportWithString", func(sig *types.Signature, sf *ssa.Function) bool {
+		n := sig.Params().Len()
+		textOK := n == 2 && isString(sig.Params().At(1).Type())
+		if sig.Recv() != nil {
+			n++
+			textOK = n == 2 && isString(sig.Recv().Type()) // the text is the receiver: (text).execute(data)
+		}
+		// it reports failures itself (errs.Wrap in its own body) and the template work happens in it or below it
+		return n == 2 && textOK && sig.Results().Len() == 2 && reaches(sf, 0, "github.com/goark/errs", "Wrap") && reaches(sf, 0, "text/template")
 	})
-	read = find("ExportWith", func(sig *types.Signature) bool {
-		return sig.Params().Len() == 1 && sig.Results().Len() == 2 && sig.Params().At(0).Type().String() == "io.Reader" && isString(sig.Results().At(0).Type())
+	read = find("ExportWith", func(sig *types.Signature, sf *ssa.Function) bool {
+		return sig.Params().Len() == 1 && sig.Results().Len() == 2 && sig.Params().At(0).Type().String() == "io.Reader" && isString(sig.Results().At(0).Type()) && reaches(sf, 0, "github.com/goark/errs", "Wrap") && reaches(sf, 0, "io", "Copy", "ReadAll")
 	})
 	return
 }
